@@ -302,6 +302,29 @@ all-ASCII strings bytewise, anything else rune by rune -/
 def mapCase (tbl : UInt8 → UInt8) (uni : Bytes → Bytes) (s : Bytes) : Bytes :=
   if s.all (· < 0x80) then s.map tbl else ((runes s).map (caseRune tbl uni)).flatten
 
+/-! ## how split stores its pieces (the tail of `p.split`) -/
+
+/-- an array key: `idx n` stands for the decimal string of `n` (`strconv.Itoa`, injective), `other` for any other string -/
+inductive Key where
+  | idx (n : Nat)
+  | other (b : Bytes)
+  deriving DecidableEq, Repr
+
+/-- an AWK array as its list of (key, value) pairs -/
+abbrev AwkArray := List (Key × Bytes)
+
+def storeFrom : Nat → List Bytes → AwkArray
+  | _, [] => []
+  | i, p :: ps => (.idx i, p) :: storeFrom (i + 1) ps
+
+/-- `array := make(map…); for i, part := range parts { array[Itoa(i+1)] = part }; p.arrays[…] = array; return len(array)`:
+a NEW map replaces the target array — `old`, the target's previous content, is not consulted -/
+def splitStore (_old : AwkArray) (parts : List Bytes) : AwkArray × Nat :=
+  let array := storeFrom 1 parts
+  (array, array.length)
+
+def arrayGet (a : AwkArray) (k : Key) : Option Bytes := (a.find? fun p => p.1 == k).map (·.2)
+
 /-! ## index -/
 
 /-- `strings.Index`: byte offset of the first occurrence -/
